@@ -59,6 +59,15 @@ class Facts:
                             st = {ft for ft in st if p not in (ft[0], ft[2])}
             if killed:
                 st = {ft for ft in st if not (killed & (_tokens(ft[0]) | _tokens(ft[2])))}
+            # definitional facts  v := A - B  (used to turn `v > 0` into `B < A`)
+            for (var, rhs, kind, _l) in node_defs(n):
+                nm = names.get(var)
+                if nm and kind in ('init', 'assign') and rhs is not None:
+                    r0 = strip(rhs)
+                    if r0.get('kind') == 'BinaryOperator' and r0.get('opcode') == '-':
+                        A, B = canon(children(r0)[0]), canon(children(r0)[1])
+                        if nm not in _tokens(A) | _tokens(B):
+                            st.add((nm, ':=', '%s\x00%s' % (A, B), 'u'))
             for (s, lab) in n.succs:
                 st2 = set(st)
                 if n.kind == 'cond' and lab in ('T', 'F') and isinstance(n.ast, dict):
@@ -70,6 +79,13 @@ class Facts:
                         ca, cb = canon(a), canon(b)
                         st2.add((ca, op, cb, dom))
                         st2.add((cb, FLIP[op], ca, dom))
+                        # v > 0 / v != 0 / v >= 1 with v := A - B  =>  B < A
+                        if (op in ('>', '!=') and cb == '0') or (op == '>=' and cb == '1'):
+                            for ft in st:
+                                if ft[0] == ca and ft[1] == ':=':
+                                    A, B = ft[2].split('\x00')
+                                    st2.add((B, '<', A, 'u'))
+                                    st2.add((A, '>', B, 'u'))
                 old = self.IN.get(s.id)
                 new = frozenset(st2) if old is None else (old & frozenset(st2))
                 if old is None or new != old:
@@ -99,12 +115,55 @@ def _split_index(e):
 def rule_idx(prog, rep, rid='IDX'):
     rep.rule(rid, 'every element address X->data + E*X->objsize is computed with 0 <= E and E bounded by X->num on all paths')
     prog.unit(UNIT)
+
+    def addr_pattern(x):
+        """X->data + E * X->objsize  ->  (E, base variable) or None"""
+        if x.get('kind') == 'BinaryOperator' and x.get('opcode') == '+':
+            a, b = children(x)
+            base = strip(a)
+            if base.get('kind') == 'MemberExpr' and base.get('name') == 'data' and (base.get('_field') or ('',))[0] == 'qvector_s':
+                m = strip(b)
+                if m.get('kind') == 'BinaryOperator' and m.get('opcode') == '*':
+                    l, r = children(m)
+                    if canon(l).endswith('->objsize'):
+                        return r, access_path(children(base)[0])
+                    if canon(r).endswith('->objsize'):
+                        return l, access_path(children(base)[0])
+        return None
+    # address helpers: static functions that return the address pattern of one of their parameters
+    helpers = {}
+    for f in prog.funcs_in(UNIT):
+        if not f.static:
+            continue
+        rets = [r for r in f.cfg.returns() if children(r.ast)]
+        if len(rets) != 1:
+            continue
+        hit = None
+        for x in walk(children(rets[0].ast)[0]):
+            ap = addr_pattern(x)
+            if ap:
+                hit = ap
+        if hit:
+            e = strip(hit[0])
+            if e.get('kind') == 'DeclRefExpr' and (e.get('_ref') or ('',))[0] == 'param':
+                pi = f.param_index(e['_ref'][2])
+                vi = f.param_index(hit[1]) if hit[1] else -1
+                if pi >= 0 and vi >= 0:
+                    helpers[f.name] = (vi, pi)
+    rep.notes['element_address_helpers'] = sorted(helpers)
     for f in sorted(prog.funcs_in(UNIT), key=lambda x: x.line or 0):
+        if f.name in helpers:
+            continue
         sites = []
         for n in f.cfg.nodes:
             if n.id not in f.cfg.reachable or not isinstance(n.ast, dict) or n.kind == 'macro':
                 continue
             for x in walk(n.ast):
+                if x.get('kind') == 'CallExpr' and prog.callee_name(x) in helpers:
+                    vi, pi = helpers[prog.callee_name(x)]
+                    args = children(x)[1:]
+                    if pi < len(args) and vi < len(args):
+                        sites.append((n, x, args[pi], access_path(args[vi])))
                 if x.get('kind') == 'BinaryOperator' and x.get('opcode') == '+':
                     a, b = children(x)
                     base = strip(a)
